@@ -91,10 +91,14 @@ class E:
         r = self.I.veq(a, b, obs=True)
         return self.z(r)
 
-    def prove(self, name, goal, **info):
+    def prove(self, name, goal, also=(), **info):
+        """`also`: further property ids the same obligation decides (recorded under `<id>.<rest of name>` as well)"""
         g = self.z(goal)
         facts = self.I.sum_facts() if hasattr(self.I, "sum_facts") else ()
         ob = self.ctx.oblige(name, g, info=info, extra_facts=facts)
+        for p in also:
+            assert p in self.tdef.props, f"task {self.tdef.name} does not serve {p}"
+            self.ctx.oblige(p + name[name.index("."):], g, info=dict(info), extra_facts=facts)
         return ob
 
     def prove_eq(self, name, a, b, **info):
